@@ -78,6 +78,7 @@ pub mod ST {
     // ghost verdicts
     pub static mut err: u32 = 0; // union of error codes
     pub static mut err_round: usize = usize::MAX; // earliest round at which an error was flagged
+    pub static mut err_round_of: [usize; 32] = [usize::MAX; 32]; // ... per error code (bit number)
     // counters
     pub static mut ops: [u32; NOPK] = [0; NOPK];
     pub static mut ops_in_delivery: [u32; NOPK] = [0; NOPK];
@@ -220,6 +221,20 @@ pub fn flag_at(code: u32, round: usize) {
         if round < ST::err_round {
             ST::err_round = round;
         }
+        let b = code.trailing_zeros() as usize;
+        if b < 32 && round < ST::err_round_of[b] {
+            ST::err_round_of[b] = round;
+        }
+    }
+}
+
+/// LR verdict for one error code: it was flagged, and the guessed prefix up to the
+/// round of ITS decisive event is realisable (another code's earlier round must
+/// not vouch for it).
+pub fn lr_violation_of(code: u32) -> bool {
+    unsafe {
+        let b = code.trailing_zeros() as usize;
+        ST::err & code != 0 && b < 32 && consistent_upto(ST::err_round_of[b])
     }
 }
 
@@ -1388,6 +1403,7 @@ pub mod cell {
         // last access per cell: thread and its vector clock at that access
         pub static mut last_tid: [usize; NCELL] = [0; NCELL];
         pub static mut last_vc: [[u8; NT]; NCELL] = [[0; NT]; NCELL];
+        pub static mut last_round: [usize; NCELL] = [0; NCELL];
         pub static mut accessed: [bool; NCELL] = [false; NCELL];
         pub static mut accesses: u32 = 0;
     }
@@ -1461,12 +1477,15 @@ pub mod cell {
                 // "previous" access in execution order may be later in time).
                 let prev = CELLS::last_vc[idx];
                 if !hb_leq(&prev, &now) && !hb_leq(&now, &prev) {
-                    flag(E_RACE);
+                    // decisive event: whichever of the two accesses is later in time
+                    let pr = CELLS::last_round[idx];
+                    flag_at(E_RACE, if pr > ST::round { pr } else { ST::round });
                 }
             }
             CELLS::accessed[idx] = true;
             CELLS::last_tid[idx] = t;
             CELLS::last_vc[idx] = now;
+            CELLS::last_round[idx] = ST::round;
         }
     }
 }
